@@ -88,7 +88,8 @@ class MethodSpec:
     pass
 
 
-def gen_method(rng, nslots=None, misaligned=False, allow_new=True, max_tries=5, plain_only_simple=False, wild_targets=True, front_payloads=True):
+def gen_method(rng, nslots=None, misaligned=False, allow_new=True, max_tries=5, plain_only_simple=False, wild_targets=True, front_payloads=True,
+               clause_counts=(0, 1, 1, 2, 3)):
     n = nslots or rng.choice([3, 5, 8, 12, 20, 40])
     slots = []  # dict(kind=..., ...)
     for i in range(n):
@@ -336,8 +337,13 @@ def gen_method(rng, nslots=None, misaligned=False, allow_new=True, max_tries=5, 
                 continue
             start = off[a]
             end = off[b] if b < n else body_units
-            nh = rng.choice([0, 1, 1, 2, 3])
+            nh = rng.choice(clause_counts)
             hs = [(rng.choice(EXC_TYPES), off[rng.randrange(first_real, n)]) for _ in range(nh)]
+            if rng.random() < 0.012:
+                # a handler with so many clauses that its signed size needs two LEB128 bytes (63/64/65 and 127/128/129 are the encoding boundaries)
+                nh = rng.choice([62, 63, 64, 65, 66, 100, 126, 127, 128, 129, 130])
+                tgt = [off[rng.randrange(first_real, n)] for _ in range(3)]
+                hs = [("Lexc/T%03d;" % j, rng.choice(tgt)) for j in range(nh)]
             ca = off[rng.randrange(first_real, n)] if (nh == 0 or rng.random() < 0.4) else None
             if nh == 0 and rng.random() < 0.3:
                 ca = 0  # catch-all handler at the very first instruction
@@ -393,18 +399,19 @@ def gen_method(rng, nslots=None, misaligned=False, allow_new=True, max_tries=5, 
                   "shared_payload": any(s.get("share") is not None for s in slots), "misaligned": any(o % 2 for o in pay_off.values()) or any(s.get("bad_payload_offset") for s in slots),
                   "new_ops": any(s["kind"] == "plain" and D.NAME2OP[s["ins"][0]] >= 0xFA for s in slots), "slots": n,
                   "backward": any(s["kind"] in ("goto", "if") and s["target"] <= i for i, s in enumerate(slots)),
-                  "wild_target": any(s.get("wild") for s in slots), "payload_in_front": bool(front)}
+                  "wild_target": any(s.get("wild") for s in slots), "payload_in_front": bool(front),
+                  "many_clauses": any(len(t.handlers) > 60 for t in tries)}
     return m
 
 
-def make_dex(methods, version=b"039"):
+def make_dex(methods, version=b"039", pad_strings=0, front_nops=0):
     """wrap MethodSpecs in a DEX: class Lg/M; with static methods m0..mk ; -> (bytes, writer, names)"""
     model = W.DexModel()
     model.version = version
     c = model.add_class(CLS)
     c.add_field("sf", "I", W.ACC_STATIC)
     c.add_field("inf", "J", 0)
-    c.add_method("callee", "V", (), W.ACC_STATIC | W.ACC_PUBLIC, W.Code(1, 0, 0, [("return-void",)]))
+    c.add_method("callee", "V", (), W.ACC_STATIC | W.ACC_PUBLIC, W.Code(1, 0, 0, [("nop",)] * front_nops + [("return-void",)]))
     names = []
     for i, ms in enumerate(methods):
         nm = "m%d" % i
@@ -412,5 +419,7 @@ def make_dex(methods, version=b"039"):
         code = W.Code(300, 0, 5, ms.insns, ms.tries)
         code.fat_leb = getattr(ms, "fat_leb", None)
         c.add_method(nm, "V", (), W.ACC_STATIC | W.ACC_PUBLIC, code)
+    for i in range(pad_strings):
+        model.extra_refs.append(W.Str("pad%04d" % i))   # each unused string moves every later section by four bytes
     data, w = W.write_dex(model, want_writer=True)
     return data, w, names
